@@ -21,6 +21,8 @@ MNS = {
     "mtri": (["A", "B", "C"], [["A", "B"], ["B", "C"], ["C", "A"]]),
     "mpair_unary": (["A", "B"], [["A", "B"], ["B"]]),
     "mstar": (["A", "B", "C"], [["B", "A"], ["B", "C"], ["B"]]),
+    # several factors over the same scope: with symbolic entries "the two tables happen to be equal" is a feasible branch of the hash model
+    "mdup": (["A", "B", "C"], [["A", "B"], ["B", "C"], ["A", "B"], ["B"], ["B"]]),
 }
 
 
